@@ -37,9 +37,15 @@ SRC = ensure_sources()
 
 
 def make_value(tok, kind):
+    # every fourth value is EMPTY (zero rows): an object that defines __len__ is falsy when empty, which is what
+    # `if spec:` / `if value:` tests in the bookkeeping would trip over
     if kind == "df":
+        if tok % 4 == 3:
+            return pd.DataFrame({"a": pd.Series([], dtype="int64"), "b": pd.Series([], dtype="float64")})
         return pd.DataFrame({"a": [tok, tok + 1], "b": [1.5, float(tok)]})
     if kind == "series":
+        if tok % 4 == 3:
+            return pd.Series([], dtype="float64", name="s%d" % tok)
         return pd.Series([tok, 2 * tok, 7], name="s%d" % tok)
     if kind == "plain":
         return [tok]
@@ -255,7 +261,11 @@ class Case:
                                 entry["ok"] = False
                                 entry["detail"].append("%s.%s missing after read: %s" % (sname, name, type(e).__name__))
                                 continue
-                            if isinstance(val, (pd.DataFrame, pd.Series)):
+                            if isinstance(val, (pd.DataFrame, pd.Series)) and len(val) == 0:
+                                # empty values: the file formats do not keep the dtypes of zero rows
+                                same = type(got) is type(val) and len(got) == 0 and \
+                                    (list(got.columns) == list(val.columns) if isinstance(val, pd.DataFrame) else got.name == val.name)
+                            elif isinstance(val, (pd.DataFrame, pd.Series)):
                                 same = type(got) is type(val) and val.equals(got)
                             elif isinstance(val, types.ModuleType):
                                 same = isinstance(got, types.ModuleType) and inspect.getsource(got) == inspect.getsource(val)
